@@ -8,12 +8,17 @@ PROP = "C01"
 def specs(tier):
     static = A.hypergraph_static() + A.hypergraph_deviant()
     gens = [A.gen_member_removals, A.gen_swaps, A.gen_shuffles]
-    depth = 3 if tier == "quick" else 4
-    devb = 1 if tier == "quick" else 2
-    out = [explore.Spec("hypergraph-histories", histcheck.SEEDS_H, static, gens,
-                        invariants=[oracles.undirected_incidence], depth=depth, dev_bound=devb,
-                        namespace=histcheck.base_namespace)]
-    return out
+    if tier == "quick":
+        return [explore.Spec("hypergraph-histories", histcheck.SEEDS_H, static, gens,
+                             invariants=[oracles.undirected_incidence], depth=3, dev_bound=1,
+                             namespace=histcheck.base_namespace)]
+    return [
+        explore.Spec("hypergraph-histories", histcheck.SEEDS_H, static, gens, invariants=[oracles.undirected_incidence],
+                     depth=3, dev_bound=2, namespace=histcheck.base_namespace),
+        explore.Spec("hypergraph-histories-deep", histcheck.SEEDS_H[:2], A.hypergraph_trim(),
+                     [A.gen_member_removals, A.gen_swaps], invariants=[oracles.undirected_incidence], depth=5, dev_bound=2,
+                     namespace=histcheck.base_namespace),
+    ]
 
 
 def run(tier, ev):
